@@ -501,7 +501,8 @@ class Profile:
                  max_blocks=4, max_c=6, kmax=9, bn=True, pool=True, two_d_k=(1, 3, 5),
                  linear_tail=True, strides=(1, 2), dil=(1, 2, 3), cat_input=True,
                  conv2d_pad0=True, act_variants=True, min_blocks=1, first_conv=False,
-                 dropout=True, bridge=False, fixtures=False, dil2d=(1, 1, 1, 2, 3)):
+                 dropout=True, bridge=False, fixtures=False, dil2d=(1, 1, 1, 2, 3),
+                 exclude_propagating=False):
         self.__dict__.update(locals())
         del self.__dict__['self']
 
@@ -554,7 +555,9 @@ class _B:
         bias = d(st.booleans())
         bn = (p.bn and d(st.integers(0, 2)) == 0) if force_bn is None else force_bn
         kw = dict(cout=cout, bias=bias, bn=bn, groups=C if dw else 1)
-        if p.exclude and allow_excl and not dw and d(st.integers(0, 4)) == 0:
+        if p.exclude and allow_excl and d(st.integers(0, 4)) == 0 and \
+                (not dw or (p.exclude_propagating and d(st.booleans()))):
+            # (a depthwise layer excluded by name stays a plain grouped convolution of fixed width)
             kw['excl'] = True
         if len(self.shapes[t]) == 2:
             L = self.shapes[t][1]
@@ -660,6 +663,10 @@ def _fixtures(family: str, pad: str = 'causal'):
                 cat('n3', ['n0', 'n1', 'n2']), conv('n4', 'n3', 3)])
     out.append([relu('n0', 'x'), cat('n1', ['x', 'n0']), conv('n2', 'n1', 3), relu('n3', 'n2'),
                 conv('n4', 'n3', 2)])
+    # a depthwise layer excluded from the search by name between two searchable layers (it stays
+    # a plain grouped convolution of fixed width, which pins the width of its producer)
+    out.append([conv('n0', 'x', 4), relu('n1', 'n0'), conv('n2', 'n1', 4, groups=4, excl=True),
+                conv('n3', 'n2', 3), relu('n4', 'n3'), conv('n5', 'n4', 2)])
     # a true MLP: the flatten merges the axes of the NETWORK INPUT (constant features), then
     # searchable Linear layers - and the same behind a pooling of the input
     flat = lambda i, src, v: {'id': i, 'op': 'flatten', 'in': [src], 'variant': v}   # noqa
@@ -678,6 +685,7 @@ def netspecs(draw, prof: Profile):
         import copy as _copy
         fx = [f for f in _fixtures(p.family, 'causal' if 'causal' in p.pads else p.pads[0])
               if (p.cat or not any(n['op'] == 'cat' for n in f['nodes'])) and
+              (p.exclude or not any(n.get('excl') for n in f['nodes'])) and
               (p.bn or not any(n.get('bn') for n in f['nodes']))]
         return _copy.deepcopy(draw(st.sampled_from(fx)))
     if p.family == '1d':
